@@ -110,9 +110,11 @@ def _order_amplitudes(
 
 def _unfold_poolsums(expr: sp.Expr) -> sp.Expr:
     new_expr = expr
-    for node in sp.postorder_traversal(expr):
-        if isinstance(node, PoolSum):
-            new_expr = new_expr.xreplace({node: node.evaluate()})
+    while new_expr.has(PoolSum):  # each pass unfolds the innermost sums
+        expr = new_expr
+        for node in sp.postorder_traversal(expr):
+            if isinstance(node, PoolSum):
+                new_expr = new_expr.xreplace({node: node.evaluate()})
     return new_expr
 
 
